@@ -188,87 +188,7 @@ impl RawEngine {
     }
 
     /// C02 on the implementation's own state; `None` = holds
-    pub fn check_c02(&self) -> Option<String> {
-        let db = self.db();
-        let layout = db.layout();
-        let regions = db.regions();
-        let flen = db.file_len();
-        let actual = std::fs::metadata(self.dir.path().join("data")).map(|m| m.len() as usize).unwrap_or(0);
-        if actual != flen {
-            return Some(format!("file length {actual} != cached {flen}"));
-        }
-        let mut ext: Vec<(usize, usize, &'static str)> = vec![];
-        let mut live = 0;
-        let mut ids = HashSet::new();
-        for (i, r) in regions.index_to_region().iter().enumerate() {
-            let Some(r) = r else { continue };
-            live += 1;
-            let m = r.meta();
-            if m.start() % PAGE_SIZE != 0 || m.reserved() % PAGE_SIZE != 0 || m.reserved() < PAGE_SIZE {
-                return Some(format!("region {i} not page aligned: {}", *m));
-            }
-            if m.len() > m.reserved() {
-                return Some(format!("region {i} len > reserved"));
-            }
-            if m.start() + m.reserved() > flen {
-                return Some(format!("region {i} extends past the file end {flen}: {}", *m));
-            }
-            if !layout.start_to_region().get(&m.start()).is_some_and(|x| x.index() == i) {
-                return Some(format!("region {i} '{}' not registered in the layout at its start", m.id()));
-            }
-            if regions.id_to_index().get(m.id()) != Some(&i) {
-                return Some(format!("id_to_index inconsistent for slot {i}"));
-            }
-            if !ids.insert(m.id().to_string()) {
-                return Some(format!("duplicate id {}", m.id()));
-            }
-            ext.push((m.start(), m.reserved(), "region"));
-        }
-        if layout.start_to_region().len() != live || regions.id_to_index().len() != live {
-            return Some(format!(
-                "layout has {} regions, id map {}, slots {live}",
-                layout.start_to_region().len(),
-                regions.id_to_index().len()
-            ));
-        }
-        for (&s, &z) in layout.start_to_hole() {
-            ext.push((s, z, "hole"));
-        }
-        for (&s, &z) in layout.pending_holes() {
-            ext.push((s, z, "pending"));
-        }
-        for (&s, &z) in layout.start_to_reserved() {
-            ext.push((s, z, "reservation"));
-        }
-        ext.sort();
-        let mut pos = 0usize;
-        let mut prev_hole_end: Option<usize> = None;
-        for &(s, z, kind) in &ext {
-            if z == 0 || s % PAGE_SIZE != 0 || z % PAGE_SIZE != 0 {
-                return Some(format!("{kind} extent ({s},{z}) empty or unaligned"));
-            }
-            if s < pos {
-                return Some(format!("{kind} extent ({s},{z}) overlaps the previous extent ending at {pos}"));
-            }
-            if s > pos {
-                return Some(format!("bytes [{pos},{s}) below the allocated end belong to no extent"));
-            }
-            if kind == "hole" {
-                if prev_hole_end == Some(s) {
-                    return Some(format!("adjacent free extents not merged at {s}"));
-                }
-                prev_hole_end = Some(s + z);
-            }
-            pos = s + z;
-        }
-        if pos != layout.len() {
-            return Some(format!("extents end at {pos} but Layout::len() = {}", layout.len()));
-        }
-        if layout.len() > flen {
-            return Some(format!("allocated end {} beyond file length {flen}", layout.len()));
-        }
-        None
-    }
+    pub fn check_c02(&self) -> Option<String> { c02_of(self.db(), self.dir.path()) }
 
     /// C01: names, lengths and bytes against the reference; `None` = agrees
     pub fn check_c01(&self) -> Option<String> {
@@ -747,3 +667,86 @@ pub fn main(args: &Args) -> i32 {
         }
     }
 }
+
+/// C02 on a database's own state; `None` = holds (also used by the directed schedules of C10)
+pub fn c02_of(db: &Database, dir: &std::path::Path) -> Option<String> {
+    
+    let layout = db.layout();
+    let regions = db.regions();
+    let flen = db.file_len();
+    let actual = std::fs::metadata(dir.join("data")).map(|m| m.len() as usize).unwrap_or(0);
+    if actual != flen {
+        return Some(format!("file length {actual} != cached {flen}"));
+    }
+    let mut ext: Vec<(usize, usize, &'static str)> = vec![];
+    let mut live = 0;
+    let mut ids = HashSet::new();
+    for (i, r) in regions.index_to_region().iter().enumerate() {
+        let Some(r) = r else { continue };
+        live += 1;
+        let m = r.meta();
+        if m.start() % PAGE_SIZE != 0 || m.reserved() % PAGE_SIZE != 0 || m.reserved() < PAGE_SIZE {
+            return Some(format!("region {i} not page aligned: {}", *m));
+        }
+        if m.len() > m.reserved() {
+            return Some(format!("region {i} len > reserved"));
+        }
+        if m.start() + m.reserved() > flen {
+            return Some(format!("region {i} extends past the file end {flen}: {}", *m));
+        }
+        if !layout.start_to_region().get(&m.start()).is_some_and(|x| x.index() == i) {
+            return Some(format!("region {i} '{}' not registered in the layout at its start", m.id()));
+        }
+        if regions.id_to_index().get(m.id()) != Some(&i) {
+            return Some(format!("id_to_index inconsistent for slot {i}"));
+        }
+        if !ids.insert(m.id().to_string()) {
+            return Some(format!("duplicate id {}", m.id()));
+        }
+        ext.push((m.start(), m.reserved(), "region"));
+    }
+    if layout.start_to_region().len() != live || regions.id_to_index().len() != live {
+        return Some(format!(
+            "layout has {} regions, id map {}, slots {live}",
+            layout.start_to_region().len(),
+            regions.id_to_index().len()
+        ));
+    }
+    for (&s, &z) in layout.start_to_hole() {
+        ext.push((s, z, "hole"));
+    }
+    for (&s, &z) in layout.pending_holes() {
+        ext.push((s, z, "pending"));
+    }
+    for (&s, &z) in layout.start_to_reserved() {
+        ext.push((s, z, "reservation"));
+    }
+    ext.sort();
+    let mut pos = 0usize;
+    let mut prev_hole_end: Option<usize> = None;
+    for &(s, z, kind) in &ext {
+        if z == 0 || s % PAGE_SIZE != 0 || z % PAGE_SIZE != 0 {
+            return Some(format!("{kind} extent ({s},{z}) empty or unaligned"));
+        }
+        if s < pos {
+            return Some(format!("{kind} extent ({s},{z}) overlaps the previous extent ending at {pos}"));
+        }
+        if s > pos {
+            return Some(format!("bytes [{pos},{s}) below the allocated end belong to no extent"));
+        }
+        if kind == "hole" {
+            if prev_hole_end == Some(s) {
+                return Some(format!("adjacent free extents not merged at {s}"));
+            }
+            prev_hole_end = Some(s + z);
+        }
+        pos = s + z;
+    }
+    if pos != layout.len() {
+        return Some(format!("extents end at {pos} but Layout::len() = {}", layout.len()));
+    }
+    if layout.len() > flen {
+        return Some(format!("allocated end {} beyond file length {flen}", layout.len()));
+    }
+    None
+    }
